@@ -128,9 +128,11 @@ def run_nndvi(p, script, seed=0):
     # the others carry fractions - what a batch IS must not depend on the dtype of the reference it is compared with
     # "tiny": the same points in units of 2**-40 (about 1e-12): distinct points stay distinct however close they are in absolute terms
     scale = 2 if p.get("halves") else (2 ** 40 if p.get("tiny") else 1)
-    # "offset": the same points riding on 2**26 (ids, counters, timestamps): neighbour relations are translation-invariant and every coordinate is an
-    # exact double - points one unit apart stay distinct points however large the level
-    off = float(2 ** 26) if p.get("offset") else 0.0
+    # "offset": the same points riding on 2**24 (ids, counters, timestamps): neighbour relations are translation-invariant and every coordinate is an
+    # exact double - points one unit apart stay distinct points however large the level.  (Not larger: scikit-learn's brute-force search expands
+    # |x - y|^2 = |x|^2 + |y|^2 - 2 x.y, which is exact in double precision only while those terms stay below 2**53 - at 2**26 it is not, and
+    # the library's own neighbour relation is then no longer the k-NN relation of the points; that is scikit-learn's arithmetic, not menelaus'.)
+    off = float(2 ** 24) if p.get("offset") else 0.0
     to_det = (lambda rows: [[v / scale + off for v in r] for r in rows]) if (scale != 1 or off) else (lambda rows: rows)
 
     def refrows():
